@@ -13,6 +13,7 @@ use sqlgrep::model::{ExpressionTree, Statement, Value};
 use crate::checks::fail;
 use crate::core::*;
 use crate::gen::*;
+use crate::sut;
 
 const CI_WORDS: [&str; 78] = [
     "select", "from", "where", "group", "by", "as", "and", "or", "create", "table", "not", "is", "in", "having", "inner", "outer", "join", "on", "extract", "default", "distinct", "case", "when", "then", "else", "end", "limit", "null", "true", "false",
@@ -36,6 +37,24 @@ fn parse_dbg(text: &str) -> Result<Result<String, String>, PanicRec> {
 
 fn is_punct(t: &str) -> bool {
     matches!(t, "(" | ")" | "[" | "]" | "{" | "}" | "," | ";")
+}
+
+fn is_operator(t: &str) -> bool {
+    matches!(t, "+" | "-" | "*" | "/" | "=" | "<" | ">" | "<=" | ">=" | "!=" | "." | "::")
+}
+
+/// may the blank between tokens a and b be dropped without the two running into one (other) token?
+fn glue_safe(a: &str, b: &str) -> bool {
+    if is_punct(a) || is_punct(b) {
+        return true;
+    }
+    let word = |t: &str| t.chars().next().map(|c| c.is_alphabetic() || c == '_').unwrap_or(false) || t.starts_with('\'');
+    let number = |t: &str| t.chars().next().map(|c| c.is_ascii_digit()).unwrap_or(false);
+    match (is_operator(a), is_operator(b)) {
+        (true, false) => word(b) || (number(b) && a != "." && a != "-"),
+        (false, true) => word(a) || (number(a) && b != "."),
+        _ => false,
+    }
 }
 
 /// clause segments of a SELECT statement: (head tokens, clauses, tail tokens)
@@ -108,6 +127,25 @@ fn variants(stmt: &str) -> Vec<(String, String)> {
         let after = if toks[i] == "-" { "comment-after-minus" } else { "comment" };
         out.push((after.into(), format!("{} -- c\n{}", left, right)));
         out.push((format!("{}-adjacent", after), format!("{}-- SELECT 'x' ; (\n{}", if is_punct(&toks[i]) || toks[i].ends_with('\'') { left.clone() } else { format!("{} ", left) }, right)));
+    }
+    // operators written without blanks: one boundary at a time, both sides of one operator, and everywhere at once
+    for i in 0..toks.len().saturating_sub(1) {
+        if (is_operator(&toks[i]) || is_operator(&toks[i + 1])) && glue_safe(&toks[i], &toks[i + 1]) {
+            out.push(("separator-none-operator".into(), format!("{}{}", join(&toks[..=i]), join(&toks[i + 1..]))));
+        }
+        if i > 0 && is_operator(&toks[i]) && glue_safe(&toks[i - 1], &toks[i]) && glue_safe(&toks[i], &toks[i + 1]) {
+            out.push(("separator-none-around-operator".into(), format!("{}{}{}", join(&toks[..i]), toks[i], join(&toks[i + 1..]))));
+        }
+    }
+    {
+        let mut dense = String::new();
+        for (i, t) in toks.iter().enumerate() {
+            if i > 0 && !glue_safe(&toks[i - 1], t) {
+                dense.push(' ');
+            }
+            dense.push_str(t);
+        }
+        out.push(("separator-none-everywhere".into(), dense));
     }
     out.push(("comment-at-end".into(), format!("{} -- trailing comment", join(&toks))));
     out.push(("comment-at-end-empty".into(), format!("{} --", join(&toks))));
@@ -283,6 +321,80 @@ pub fn run(ctx: &Ctx) -> i32 {
         }
     });
     col.layer("layout variants", done, complete, json!({"corpus": corpus.len(), "variants": total}));
+    // the command line program: `-c <text>` and `--command-file` take the same texts; a variant must print what the original prints
+    {
+        let dir = sut::tmp_dir();
+        let defp = format!("{}/c20_def_{}.txt", dir, std::process::id());
+        let cmdp = format!("{}/c20_cmd_{}.txt", dir, std::process::id());
+        std::fs::write(&defp, format!("{}\n{}", JDEF, JDEF_U)).unwrap();
+        let data = sut::TempFiles::new(&[format!("{}\n", jlines().join("\n")).as_bytes()]);
+        let mut ncli = 0u64;
+        let mut missing = false;
+        let wanted = ["comment", "comment-adjacent", "comment-at-end", "comment-at-end-empty", "comment-at-end-lf", "comment-at-start", "semicolon-added", "semicolon-added-adjacent", "semicolon-removed", "separator-lf", "separator-crlf", "separator-none-everywhere", "case-all-upper", "case-all-lower", "trailing-whitespace"];
+        'outer: for s in corpus.iter() {
+            if !s.starts_with("SELECT") || s.contains("::") || s.contains("now (") {
+                continue;
+            }
+            let original = corpus_tokens(s).join(" ");
+            let base = match sut::run_cli(&["-d", &defp, &data.paths[0], "--format", "json", "-c", &original]) {
+                Some(b) => b,
+                None => {
+                    missing = true;
+                    break;
+                }
+            };
+            let vs = variants(s);
+            for kind in wanted {
+                // the first and the last variant of that kind
+                let of_kind: Vec<&(String, String)> = vs.iter().filter(|(k, _)| k == kind).collect();
+                let mut picks: Vec<&(String, String)> = Vec::new();
+                if let Some(f) = of_kind.first() {
+                    picks.push(f);
+                }
+                if of_kind.len() > 1 {
+                    picks.push(of_kind[of_kind.len() - 1]);
+                }
+                for (k, v) in picks {
+                    for via_file in [false, true] {
+                        // a value that begins with a dash is taken for an option by the argument parser: only through the file
+                        if !via_file && v.starts_with('-') {
+                            continue;
+                        }
+                        let got = if via_file {
+                            std::fs::write(&cmdp, v).unwrap();
+                            sut::run_cli(&["-d", &defp, &data.paths[0], "--format", "json", "--command-file", &cmdp])
+                        } else {
+                            sut::run_cli(&["-d", &defp, &data.paths[0], "--format", "json", "-c", v])
+                        };
+                        let got = match got {
+                            Some(g) => g,
+                            None => break 'outer,
+                        };
+                        ncli += 1;
+                        col.eval(1);
+                        col.nontrivial(h64(&("cli", v, via_file)));
+                        if got.0 != base.0 {
+                            col.fail(fail(
+                                format!("layout:cli:{}:{}", k, if via_file { "command-file" } else { "command" }),
+                                format!("sqlgrep {} {:?} prints {:?}; the original {:?} prints {:?}", if via_file { "--command-file with" } else { "-c" }, v, got.0.iter().take(4).collect::<Vec<_>>(), original, base.0.iter().take(4).collect::<Vec<_>>()),
+                                json!({"layer": "cli", "original": s, "kind": k, "variant": v, "via_file": via_file}),
+                                json!(base.0),
+                                json!(got.0),
+                                v.len() as u64,
+                            ));
+                        }
+                    }
+                }
+            }
+        }
+        std::fs::remove_file(&defp).ok();
+        std::fs::remove_file(&cmdp).ok();
+        if missing {
+            col.note("CLI binary not built: command-line layer skipped".into());
+        } else {
+            col.layer("command line program (-c / --command-file)", ncli, true, json!({"variant_kinds": wanted}));
+        }
+    }
     let mut nl = 0;
     for body in literal_bodies() {
         for c in 0..5 {
